@@ -1,5 +1,8 @@
 package flight12
 
+// GENERATED from harness/C13/flight12.go (entries kept: zzGate12, zzGate12BigHello). C04: the cookie-less first ClientHello
+// is not in the Finished transcript, so this comparison is what binds the fields the server negotiated from it.
+
 //symgo:pkg github.com/pion/dtls/v3/internal/flight/flight12
 //symgo:param NSID quick=2 thorough=3
 //symgo:param NEXT quick=2 thorough=4
@@ -287,7 +290,6 @@ func zzGate12BigHello() {
 // msg_type 3, body = server_version fe fd, cookie length 20, the issued cookie. No alert, no error, and
 // nothing but this message: no ServerHello, Certificate or ServerKeyExchange.
 //
-//symgo:entry covers=hvr
 func zzOnlyHelloVerifyRequest12() {
 	cfg := zzServerConfig()
 	state := zzServerState()
@@ -332,7 +334,6 @@ func zzInitCipherSuite(s *dtlsstate.State12) error {
 // the store lookup fails (abort); Flight4 is reached from a first ClientHello only when hello verify is
 // disabled. The lookup key passed to the store is the session id of the ClientHello.
 //
-//symgo:entry covers=cookie_request,resumed,store_error,verify_disabled,store_miss
 func zzFirstHelloAnswer12() {
 	cfg := zzServerConfig()
 	cfg.InsecureSkipHelloVerify = zzsymChoice("skipverify", 2) == 1
@@ -394,7 +395,6 @@ func zzFirstHelloAnswer12() {
 // hello verification enabled that answers a first ClientHello with a cookie request must not have generated
 // an ephemeral (EC)DH key pair for it - the source address is still unverified.
 //
-//symgo:entry covers=cookie_request,non_default_curve,refused
 func zzNoKeyWorkBeforeCookie12() {
 	cfg := zzServerConfig()
 	state := zzServerState()
@@ -428,7 +428,6 @@ func zzNoKeyWorkBeforeCookie12() {
 // separate read (nothing cached or derived from the first); nothing is sent in flight 0. With hello
 // verification disabled no cookie is set.
 //
-//symgo:entry covers=cookie,no_cookie
 func zzCookieFresh12() {
 	var log [][]byte
 	rand.Reader = zzRandReader{&log}
